@@ -14,7 +14,7 @@ RULE = ("E2: breadth-first search over call histories on the real code (5 classe
         "everywhere]; depth 2, thorough adds depth 3 on the reduced alphabet); on every transition I1 (model "
         "snapshot unchanged) and I2 (bit-identical to the same call on a fresh model and fresh ratings with the same "
         "values, other ids and names; the same again with every rating carrying one id), I8 (a valid call leaves its teams / ranks / scores containers unchanged, so a "
-        "caller that re-uses them gets answers independent of the earlier call). E3: every schedule with <= b preemptions of harnesses H1-H9 (2-3 threads sharing "
+        "caller that re-uses them gets answers independent of the earlier call). E3: every schedule with <= b preemptions of harnesses H1-H12 (2-3 threads sharing "
         "one model) at source-line and opcode granularity; each thread's result must be bit-identical to its solo result. "
         "I1 is also evaluated over E1 spaces that reach the kappa floor, 6-8 teams, large custom gamma and big teams. Re-entrancy: every inner call executed inside every gamma invocation of every outer rate() on the same model. "
         "Seeds: the same exploration re-run under PYTHONHASHSEED in {0,1,2^32-1,VERIF_SEED} with different rating ids; "
@@ -41,6 +41,12 @@ def e3_plan(ctx):
                 plan.append((h, kind, "opcode", 1, 12))
                 plan.append((h, kind, "line-helper", 2, 16))
             plan.append(("H5", kind, "line", 1, 8))
+            for h in ("H10", "H11"):
+                plan.append((h, kind, "line", 1, 2))
+                plan.append((h, kind, "opcode", 1, 12))
+                plan.append((h, kind, "line-helper", 2, 16))
+            plan.append(("H12", kind, "line", 2, 8))
+            plan.append(("H12", kind, "opcode", 1, 2))
         else:
             for h in ("H1", "H2", "H3", "H4", "H6", "H7", "H8", "H9"):
                 plan.append((h, kind, "line", 1, 1))
@@ -49,6 +55,10 @@ def e3_plan(ctx):
             if kind in ("PL", "TMP"):  # opcode granularity (sub-line interleavings) on two classes; all five in the thorough tier
                 plan.append(("H1", kind, "opcode", 1, 4))
             plan.append(("H5", kind, "line", 1, 6))
+            for h in ("H10", "H11"):
+                plan.append((h, kind, "line", 1, 2))
+            plan.append(("H12", kind, "line", 1, 1))
+            plan.append(("H12", kind, "opcode", 1, 2))
     return plan
 
 
